@@ -249,6 +249,20 @@ func main() {
 					}
 				}(k)
 			}
+		case st == "readers":
+			// other goroutines of the node keep READING the address book (placement of new datasets, the allocator's
+			// "may I change this partition", searches choosing replicas) while membership changes apply
+			for k := 0; k < 4; k++ {
+				go func(k int) {
+					for {
+						conn.NodeIds()
+						conn.Nodes()
+						if k%2 == 0 {
+							time.Sleep(20 * time.Microsecond)
+						}
+					}
+				}(k)
+			}
 		case st == "burst":
 			g.hold(true)
 		case strings.HasPrefix(st, "conf"):
